@@ -138,6 +138,38 @@ def document_level(ctx, depth):
         combos.append({'enc': enc, 'include': None, 'exclude': [TC.DECORATION]})
     docrun.run_option_sets(ctx, cases, combos, lambda case: [{}],
                            'a document exported in one of the six encodings is not the cell-wise view of the source grid in that encoding', 'document in six encodings')
+    # measure ranges x encodings: the recovered header line must carry the prefix too, cells stay consistent (tie with the model)
+    exps = []
+    for case in cases:
+        M = len(case.doc.measure_start_tree_stages) if case.doc is not None else 0
+        case.ranges = [(a, b) for a in range(1, M + 1) for b in (None, M) if b is None or a <= b][:4]
+        exps.append([{'cats': docrun.ALLC, 'enc': e, 'from': a, 'to': b} for (a, b) in case.ranges for e in ENCS])
+    mresp = docrun.model_exports(ctx, cases, exps)
+    for case, mr in zip(cases, mresp):
+        if case.doc is None or 'exports' not in mr:
+            continue
+        k = 0
+        for (a, b) in case.ranges:
+            outs = {}
+            for e in ENCS:
+                got = docrun.dumps_public(case, {'from': a, 'to': b, 'enc': e})
+                ctx.check({'text': case.text, 'from_measure': a, 'to_measure': b, 'encoding': e, 'clause': 'tie: range export in an encoding'}, got, mr['exports'][k], None,
+                          nontrivial=True, what='range export in this encoding differs from the model')
+                outs[e] = got
+                k += 1
+                if 'ok' in got and got['ok']:
+                    hdr = got['ok'].split('\n')[0].split('\t')
+                    if not all(c.startswith('**' + docrun.PREFIX[e]) and c[2 + len(docrun.PREFIX[e]):] in ('kern', 'text', 'dynam', 'dyn', 'harm', 'mxhm', 'fing', 'root') for c in hdr):
+                        ctx.fail({'text': case.text, 'from_measure': a, 'to_measure': b, 'encoding': e, 'clause': 'range export: headers'},
+                                 'spine headers of a measure-range export are not ** + prefix + type', impl=hdr)
+            for plain, ext in (('kern', 'ekern'), ('bkern', 'bekern'), ('akern', 'aekern')):
+                pa, ex = outs.get(plain), outs.get(ext)
+                if pa and ex and 'ok' in pa and 'ok' in ex:
+                    exp = '\n'.join('\t'.join(('**' + docrun.PREFIX[plain] + c[2 + len(docrun.PREFIX[ext]):]) if c.startswith('**') else strip(c) for c in ln.split('\t'))
+                                    for ln in ex['ok'].split('\n'))
+                    if pa['ok'] != exp:
+                        ctx.fail({'text': case.text, 'from_measure': a, 'to_measure': b, 'clause': f'range export: {plain} = stripped {ext}'},
+                                 f'{plain} range export is not the {ext} one with the separators removed', impl=pa['ok'], expected=exp)
     for case in cases:
         if case.doc is None:
             continue
